@@ -677,6 +677,10 @@ func createConnHandler(
 					for {
 						args := dynamicpb.NewMessage(argsDesc)
 						if inErr = stream.RecvMsg(args); inErr != nil {
+							if inErr == io.EOF {
+								// Forward the client's half-close.
+								clientStream.CloseSend() //nolint:errcheck
+							}
 							break
 						}
 
